@@ -13,7 +13,12 @@ EXTRA = {"C01-2": ["C07"], "C04-1": ["C07"], "C06-2": ["C07"], "C03-b1": ["C07"]
          "C11-s1": ["C12", "C13"], "C02-s2": ["C01"], "C09-s1": ["C01"],
          "C01-t1": ["C18", "C15"], "C01-t2": ["C07", "C05", "C16"], "C02-t2": ["C01", "C09"], "C03-t2": ["C05"], "C04-t2": ["C07", "C16"],
          "C05-t1": ["C03", "C15"], "C05-t2": ["C17"], "C06-t1": ["C07"], "C19-t2": ["C07"], "C11-t1": ["C13"], "C09-t1": ["C01", "C02"],
-         "C15-t1": ["C05", "C11"], "C18-t1": ["C01"], "C18-t2": ["C11"], "C11-t2": ["C18"], "C16-t2": ["C12"], "C12-t2": ["C16"]}
+         "C15-t1": ["C05", "C11"], "C18-t1": ["C01"], "C18-t2": ["C11"], "C11-t2": ["C18"], "C16-t2": ["C12"], "C12-t2": ["C16"],
+         "C01-u1": ["C05", "C15"], "C01-u2": ["C02"], "C05-u1": ["C01", "C18"], "C05-u2": ["C16", "C07"], "C13-u1": ["C08"],
+         "C13-u2": ["C07"], "C11-u1": ["C18"], "C11-u2": ["C12", "C13", "C09"], "C18-u1": ["C03"], "C18-u2": ["C11", "C12", "C09"],
+         "C06-u1": ["C17", "C19"], "C06-u2": ["C01"], "C17-u2": ["C11"], "C12-u1": ["C09"], "C12-u2": ["C16", "C11"],
+         "C16-u1": ["C07"], "C16-u2": ["C07"], "C19-u1": ["C06"], "C19-u2": ["C07"], "C09-u1": ["C12"], "C09-u2": ["C10", "C13"],
+         "C03-u1": ["C18"], "C03-u2": ["C07", "C08"], "C08-u1": ["C12"], "C08-u2": ["C13"]}
 def run_one(name, checks):
     d = os.path.join(SEEDED, name)
     wt = tempfile.mkdtemp(prefix="hsv-mx-", dir="/tmp"); os.rmdir(wt)
